@@ -30,6 +30,7 @@ RULE = (
     "midpoints, out-of-range values, NaN/inf; sub-ranges with ends on edges, between edges and +-1..3 ulp of edges; every 4th case "
     "a 2-D histogram, every 7th a Categorize. distinct = digest(configuration, fills); non-trivial = >=1 accessor consistency "
     "relation evaluated on a filled histogram"
+    ' Fills happen row-wise or in vectorised chunks with every view read (and discarded) in between.'
 )
 ASSUMPTIONS = [
     "a probe within 4 ulp of an edge may be reported on either side of it (rounding band); elsewhere containment is exact",
